@@ -1002,6 +1002,8 @@ type NestCase struct {
 	Prog json.RawMessage `json:"prog"`
 	// Thrice: one parsed template, executed with the data, the flipped data, the data
 	Thrice bool `json:"thrice,omitempty"`
+	// Cell: a cell of the exhaustive OPERANDS matrix (part C2): non-trivial whatever its number of chains
+	Cell bool `json:"cell,omitempty"`
 }
 
 var leafSpells = []model.Expr{
@@ -1046,7 +1048,31 @@ func (g *nestGen) cond() model.Expr {
 	return e
 }
 
+// cmpAtom is an operand that is itself an infix expression with a comparison / arithmetic operator over the
+// variable n (1; 0 in the flipped data) or over a recording call.
+func (g *nestGen) cmpAtom() model.Expr {
+	n := model.Expr(model.Var{Name: "n"})
+	if rapid.Bool().Draw(g.t, "recorded") {
+		g.ctr++
+		n = model.Call{Fn: "c", Args: []model.Expr{model.Lit{V: g.ctr}, model.Var{Name: "n"}}}
+	}
+	k := model.Lit{V: rapid.IntRange(0, 2).Draw(g.t, "k")}
+	cmp := rapid.SampledFrom([]string{"<", "<=", ">", ">=", "==", "!="}).Draw(g.t, "cmp")
+	switch rapid.IntRange(0, 4).Draw(g.t, "cmpshape") {
+	case 0: // n + 1 > k
+		return model.Bin{Op: cmp, L: model.Bin{Op: "+", L: n, R: model.Lit{V: 1}}, R: k}
+	case 1: // k < n * 2
+		return model.Bin{Op: cmp, L: k, R: model.Bin{Op: "*", L: n, R: model.Lit{V: 2}}}
+	case 2: // an arithmetic value: every int, 0 too, is truthy
+		return model.Bin{Op: rapid.SampledFrom([]string{"+", "-", "*"}).Draw(g.t, "aop2"), L: n, R: k}
+	}
+	return model.Bin{Op: cmp, L: n, R: k}
+}
+
 func (g *nestGen) atom() model.Expr {
+	if rapid.IntRange(0, 3).Draw(g.t, "cmpatom") == 0 {
+		return g.cmpAtom()
+	}
 	g.ctr++
 	l := rapid.SampledFrom(leafSpells).Draw(g.t, "leaf")
 	if v, ok := l.(model.Var); ok && v.Name == "unk" {
@@ -1077,7 +1103,19 @@ func (g *nestGen) nodes(depth int) []model.Node {
 	var out []model.Node
 	for i := 0; i < n; i++ {
 		g.ctr++
-		switch k := rapid.IntRange(0, 7).Draw(g.t, "node"); {
+		switch k := rapid.IntRange(0, 8).Draw(g.t, "node"); {
+		case k == 8: // an OUTPUT TAG printing a tree whose root is ! / && / ||: "true" or "false"
+			d := rapid.IntRange(0, 2).Draw(g.t, "emitdepth")
+			var e model.Expr
+			switch rapid.IntRange(0, 2).Draw(g.t, "emitroot") {
+			case 0:
+				e = model.Not{X: g.tree(d)}
+			case 1:
+				e = model.Bin{Op: "&&", L: g.tree(d), R: g.tree(d)}
+			default:
+				e = model.Bin{Op: "||", L: g.tree(d), R: g.tree(d)}
+			}
+			out = append(out, model.Text{S: "{"}, model.Emit{X: e}, model.Text{S: "}"})
 		case k <= 1 || depth <= 0:
 			out = append(out, model.Text{S: fmt.Sprintf("[t%d]", g.ctr)})
 		case k == 6: // a function of the template, called twice
@@ -1103,18 +1141,18 @@ func (g *nestGen) nodes(depth int) []model.Node {
 	return out
 }
 
-func checkNest(r *vk.Run, prog []model.Node, thrice bool) *vk.Fail {
+func checkNest(r *vk.Run, prog []model.Node, thrice, cell bool) *vk.Fail {
 	src := model.Printer{}.Nodes(prog)
-	c := NestCase{Src: src, Prog: model.Encode(prog), Thrice: thrice}
+	c := NestCase{Src: src, Prog: model.Encode(prog), Thrice: thrice, Cell: cell}
 	return checkNestSrc(r, prog, src, c)
 }
 
 // the data of a nested program; the second set flips what the leaves t, f and es are worth and shortens the loops
 func nestData(flipped bool) map[string]interface{} {
 	if flipped {
-		return map[string]interface{}{"two": []interface{}{1}, "es": "", "t": false, "f": true}
+		return map[string]interface{}{"two": []interface{}{1}, "es": "", "t": false, "f": true, "n": 0, "arr": []interface{}{true, false, nil}}
 	}
-	return map[string]interface{}{"two": []interface{}{1, 2}, "es": []interface{}{}, "t": true, "f": false}
+	return map[string]interface{}{"two": []interface{}{1, 2}, "es": []interface{}{}, "t": true, "f": false, "n": 1, "arr": []interface{}{true, false, nil}}
 }
 
 func nestContext(data map[string]interface{}, helpers map[string]model.Helper) *plush.Context {
@@ -1162,7 +1200,10 @@ func checkNestSrc(r *vk.Run, prog []model.Node, src string, c NestCase) *vk.Fail
 					nt += "|thrice"
 				}
 			}
-			if c.Thrice {
+			if c.Cell {
+				nt = src
+				r.Count(nt, "operands: an unknown identifier next to an operand that is itself an operator expression")
+			} else if c.Thrice {
 				r.Count(nt, "nested, one template executed three times")
 			} else {
 				r.Count(nt, "nested")
@@ -1190,7 +1231,114 @@ func checkNestSrc(r *vk.Run, prog []model.Node, src string, c NestCase) *vk.Fail
 	return nil
 }
 
-const rule = "(A, exhaustive) 122 value kinds (nil, bools, nil slices / maps / funcs / chans (truthy: not nil pointers), strings incl. \"false\"/\"0\"/\"nil\"/newline/NUL, trusted HTML, typed nil pointers incl. nil pointers to pointers, to iterators and stored through an interface type, non-nil pointers to zero values and to nil pointers, values that PRINT as nothing (Stringer / HTMLer / error with empty text: truthy, they are not the empty string), unknown identifier, nil context value, every numeric width at 0, NaN, -0, complex, uintptr, empty and non-empty slices/arrays/maps/structs, func, iterator, time, results of helpers with 16 result signatures; 5 kinds the statement is silent about - empty values of other string types, nil unsafe.Pointer - are checked for uniformity only, against the plain if) x 61 test positions (if, else-if, second and fifth else-if, !, !!, !!!, !(!v), parenthesised, &&/|| on either side, v && v, v || v, three-operand and mixed ! && || forms, emitted ! !! && ||, inside for / function / block helper / contentFor and their combinations, inside the then / else / else-if block of another chain, returned from a function, a chain written in one tag, silent if, compact and multi-line spellings, five sequences in which a name is first tested while unknown and then bound, five positions where the same statement has forgiven another unknown identifier before / after / on every pass of a loop, under 20 levels of else / then blocks) x 16 ways the value reaches the site (an unknown identifier also as a dotted name whose first name is bound nowhere; variable, variables named like keyword prefixes - nilx falsey iffy elsewhere -, literal, helper call, map index, slice index, struct field, field of an indexed element / of a map element / of a call result, method result, result of a template function): the truth value must be the same everywhere and equal the table in the property; a tested helper call is evaluated exactly once. plus 13 conditions that are arithmetic / concatenation expressions x 6 positions. (A2, exhaustive + random) one set of six test sites evaluated for several values in turn - loop body over a slice of the values (nil elements too), template function called once per value, template function reading an outer variable that is rebound by let / by assignment between the calls, ONE parsed template executed once per value with fresh data (nil and unset too; sites at top level or in a loop), ONE parsed template and ONE context whose value is Set before each execution: every pair (A, B) of the value kinds tested A, B, A (quick: unordered pairs, thorough: ordered), and random sequences of 2-8 kinds. (B, exhaustive) every chain of 1..4 branches x every assignment of 9 condition values x with/without else x 10 placements (top, loop, function, block helper, if in loop, else block, else-if block, a script in one tag assigning a variable, a function returning from the branches, block helper in loop), each condition wrapped in a recording helper: output = block of the first truthy branch, conditions evaluated = exactly the prefix up to it; for 1..3 branches also with empty / output-tag / mixed blocks, with every later condition replaced by a helper that fails when evaluated, and with a bare first condition; chains of 5..12 branches with the first truthy condition at every position. (B2, exhaustive + random) ONE chain evaluated for a sequence of rows of truth assignments (conditions read r[j] or the field r.A of the row, bare or through the recording helper) as loop body / function body / parsed template executed per row: every ordered pair of assignments of 2 branches over 4 values as A, B, A, and random 1..4 branches x 2..6 rows over 10 values. (B3, exhaustive) a chain and the five test sites after a condition that called a template function whose body fails on an unknown identifier (7 values of a variable x 7 arguments bound to the parameter of the same name x 5 failing bodies x 6 uses x top level / loop / function): the render may fail; if it goes on, every site reads the variable as before the call and the chain's else-if tests the variable. (C, random) nested if/else-if/else chains whose conditions are trees of !, &&, || and parentheses (depth <= 3, only the parentheses the grammar needs) over recording calls, arithmetic and concatenation, inside loops, template functions called twice and block helpers, compared with the reference interpreter incl. the evaluation trace; a quarter of them as one parsed template executed with the data, with flipped data, and with the data again. Non-trivial: every matrix cell, chain and row sequence is (distinct by cell / chain / template)."
+// ---- part C2: an unknown identifier next to an operand that is itself an operator expression ----
+//
+// The statement: an unknown identifier is falsy wherever it is tested (if, !, &&, ||). The cells put the unknown
+// identifier DIRECTLY under && / || (never inside a comparison or a call: whether that is forgiven is not fixed, see
+// Result.Lenient) and make the OTHER operand an expression that has operators, calls or indexing of its own; the
+// whole is then tested bare and one and two levels deep. The oracle is the reference interpreter.
+
+func operandCells() [][]model.Node {
+	v := func(s string) model.Expr { return model.Var{Name: s} }
+	l := func(x interface{}) model.Expr { return model.Lit{V: x} }
+	b := func(op string, x, y model.Expr) model.Expr { return model.Bin{Op: op, L: x, R: y} }
+	n, t, f := v("n"), v("t"), v("f")
+	rec := func(k int, x model.Expr) model.Expr { return model.Call{Fn: "c", Args: []model.Expr{l(k), x}} }
+	others := []model.Expr{
+		b(">", n, l(0)), b(">=", n, l(1)), b("<", n, l(1)), b("<=", n, l(0)), b("==", n, l(1)), b("!=", n, l(1)),
+		b(">", b("+", n, l(1)), l(1)), b("==", b("-", n, l(1)), l(0)), b("!=", b("*", n, l(2)), l(2)), b("<", l(1), b("+", n, n)),
+		b("+", n, l(1)), b("-", n, l(1)), b("*", n, l(0)), // values: every int is truthy
+		b("+", l(""), v("s")), // a concatenation: truthy iff non-empty (s is "" or "x")
+		model.Not{X: b(">", n, l(0))}, model.Paren{X: b(">", n, l(0))},
+		b("&&", b(">", n, l(0)), t), b("||", b("<", n, l(1)), f), b("&&", t, b(">", n, l(0))),
+		model.Call{Fn: "gt", Args: []model.Expr{n}}, // a function of the template whose body is a comparison
+		rec(1, b(">", n, l(0))),                     // a helper whose argument is a comparison
+		b(">", rec(1, n), l(0)),
+		model.Idx{X: v("arr"), I: b("-", l(2), n)}, // arr = [true, false, nil]
+		model.Idx{X: model.Arr{Els: []model.Expr{b(">", n, l(0)), b("<", n, l(1))}}, I: l(0)},
+		t, f, // reference points
+	}
+	var exprs []model.Expr
+	for _, o := range others {
+		for _, op := range []string{"&&", "||"} {
+			exprs = append(exprs, b(op, o, v("unk")), b(op, v("unk"), o), b(op, b(op, o, v("unk")), o), b(op, o, model.Not{X: v("unk")}))
+		}
+	}
+	tf := func(c model.Expr) model.Node {
+		return model.EmitIf{If: &model.If{Cond: c, Then: []model.Node{model.Text{S: "T"}}, HasElse: true, Else: []model.Node{model.Text{S: "F"}}}}
+	}
+	chain := func(conds ...model.Expr) model.Node {
+		i := &model.If{Cond: conds[0], Then: []model.Node{model.Text{S: "A"}}, HasElse: true, Else: []model.Node{model.Text{S: "Z"}}}
+		for j, c := range conds[1:] {
+			i.ElseIfs = append(i.ElseIfs, model.ElseIf{Cond: c, Then: []model.Node{model.Text{S: string(rune('B' + j))}}})
+		}
+		return model.EmitIf{If: i}
+	}
+	wraps := []func(x model.Expr) []model.Node{
+		func(x model.Expr) []model.Node { return []model.Node{tf(x)} },
+		func(x model.Expr) []model.Node { return []model.Node{tf(model.Not{X: x})} },
+		func(x model.Expr) []model.Node { return []model.Node{tf(model.Not{X: model.Not{X: x}})} },
+		func(x model.Expr) []model.Node { return []model.Node{tf(b("||", x, t))} },
+		func(x model.Expr) []model.Node { return []model.Node{tf(b("||", x, f))} },
+		func(x model.Expr) []model.Node { return []model.Node{tf(b("&&", x, t))} },
+		func(x model.Expr) []model.Node { return []model.Node{tf(b("&&", t, x))} },
+		func(x model.Expr) []model.Node { return []model.Node{tf(b("||", f, x))} },
+		func(x model.Expr) []model.Node { return []model.Node{tf(b("&&", model.Not{X: x}, t))} },
+		func(x model.Expr) []model.Node { return []model.Node{tf(b("||", x, v("unk2")))} },
+		func(x model.Expr) []model.Node { return []model.Node{tf(b("||", b("||", x, v("unk2")), t))} },
+		func(x model.Expr) []model.Node { return []model.Node{tf(b("&&", b("||", x, f), t))} },               // two levels
+		func(x model.Expr) []model.Node { return []model.Node{tf(b("||", model.Not{X: b("||", x, f)}, f))} }, // two levels under !
+		func(x model.Expr) []model.Node { return []model.Node{tf(b("||", f, b("&&", t, x)))} },               // two levels, right operands
+		func(x model.Expr) []model.Node {
+			return []model.Node{tf(b("&&", model.Not{X: x}, b("||", b("||", x, x), t)))}
+		}, // the demo's shape
+		func(x model.Expr) []model.Node { return []model.Node{chain(f, x)} },
+		func(x model.Expr) []model.Node { return []model.Node{chain(f, b("||", x, f))} },
+		func(x model.Expr) []model.Node {
+			return []model.Node{chain(b(">", n, l(5)), b("||", x, b("==", n, l(1))))}
+		},
+		func(x model.Expr) []model.Node { return []model.Node{chain(f, l(nil), b("&&", t, x), model.Not{X: x})} },
+		func(x model.Expr) []model.Node { return []model.Node{chain(b("&&", x, f), b("||", x, f), t)} },
+		func(x model.Expr) []model.Node { return []model.Node{model.Emit{X: x}} },
+		func(x model.Expr) []model.Node { return []model.Node{model.Emit{X: b("||", x, f)}} },
+		func(x model.Expr) []model.Node { return []model.Node{model.Emit{X: model.Not{X: x}}} },
+		func(x model.Expr) []model.Node {
+			return []model.Node{model.Emit{X: model.Call{Fn: "c", Args: []model.Expr{l(9), x}}}}
+		}, // as an argument
+		func(x model.Expr) []model.Node {
+			return []model.Node{model.Code{S: model.LetS{Name: "w", X: x}}, tf(v("w")), tf(b("||", v("w"), f))}
+		},
+		func(x model.Expr) []model.Node {
+			return []model.Node{model.Code{S: model.LetS{Name: "h", X: model.FnLit{Body: []model.Node{model.Code{S: model.ReturnS{X: x}}}}}},
+				tf(model.Call{Fn: "h"}), tf(b("||", model.Call{Fn: "h"}, f))}
+		},
+		func(x model.Expr) []model.Node {
+			return []model.Node{model.EmitFor{For: &model.For{Val: "i", Iter: v("two"), Body: []model.Node{tf(b("||", x, f)), tf(x)}}}}
+		},
+		func(x model.Expr) []model.Node {
+			return []model.Node{model.EmitBlock{Helper: "blk", Body: []model.Node{tf(b("&&", x, t))}}}
+		},
+		func(x model.Expr) []model.Node { // a chain in the then block of a chain that tested the same expression
+			return []model.Node{model.EmitIf{If: &model.If{Cond: model.Not{X: x}, Then: []model.Node{tf(b("||", x, f))}, HasElse: true, Else: []model.Node{tf(b("&&", x, t))}}}}
+		},
+	}
+	var out [][]model.Node
+	for nv := 0; nv <= 2; nv++ {
+		pre := []model.Node{
+			model.Code{S: model.LetS{Name: "n", X: l(nv)}},
+			model.Code{S: model.LetS{Name: "s", X: l([]string{"", "x", "x"}[nv])}},
+			model.Code{S: model.LetS{Name: "gt", X: model.FnLit{Params: []string{"x"}, Body: []model.Node{model.Code{S: model.ReturnS{X: b(">", v("x"), l(0))}}}}}},
+		}
+		for _, x := range exprs {
+			for _, w := range wraps {
+				out = append(out, append(append([]model.Node{}, pre...), w(x)...))
+			}
+		}
+	}
+	return out
+}
+
+const rule = "(A, exhaustive) 122 value kinds (nil, bools, nil slices / maps / funcs / chans (truthy: not nil pointers), strings incl. \"false\"/\"0\"/\"nil\"/newline/NUL, trusted HTML, typed nil pointers incl. nil pointers to pointers, to iterators and stored through an interface type, non-nil pointers to zero values and to nil pointers, values that PRINT as nothing (Stringer / HTMLer / error with empty text: truthy, they are not the empty string), unknown identifier, nil context value, every numeric width at 0, NaN, -0, complex, uintptr, empty and non-empty slices/arrays/maps/structs, func, iterator, time, results of helpers with 16 result signatures; 5 kinds the statement is silent about - empty values of other string types, nil unsafe.Pointer - are checked for uniformity only, against the plain if) x 61 test positions (if, else-if, second and fifth else-if, !, !!, !!!, !(!v), parenthesised, &&/|| on either side, v && v, v || v, three-operand and mixed ! && || forms, emitted ! !! && ||, inside for / function / block helper / contentFor and their combinations, inside the then / else / else-if block of another chain, returned from a function, a chain written in one tag, silent if, compact and multi-line spellings, five sequences in which a name is first tested while unknown and then bound, five positions where the same statement has forgiven another unknown identifier before / after / on every pass of a loop, under 20 levels of else / then blocks) x 16 ways the value reaches the site (an unknown identifier also as a dotted name whose first name is bound nowhere; variable, variables named like keyword prefixes - nilx falsey iffy elsewhere -, literal, helper call, map index, slice index, struct field, field of an indexed element / of a map element / of a call result, method result, result of a template function): the truth value must be the same everywhere and equal the table in the property; a tested helper call is evaluated exactly once. plus 13 conditions that are arithmetic / concatenation expressions x 6 positions. (A2, exhaustive + random) one set of six test sites evaluated for several values in turn - loop body over a slice of the values (nil elements too), template function called once per value, template function reading an outer variable that is rebound by let / by assignment between the calls, ONE parsed template executed once per value with fresh data (nil and unset too; sites at top level or in a loop), ONE parsed template and ONE context whose value is Set before each execution: every pair (A, B) of the value kinds tested A, B, A (quick: unordered pairs, thorough: ordered), and random sequences of 2-8 kinds. (B, exhaustive) every chain of 1..4 branches x every assignment of 9 condition values x with/without else x 10 placements (top, loop, function, block helper, if in loop, else block, else-if block, a script in one tag assigning a variable, a function returning from the branches, block helper in loop), each condition wrapped in a recording helper: output = block of the first truthy branch, conditions evaluated = exactly the prefix up to it; for 1..3 branches also with empty / output-tag / mixed blocks, with every later condition replaced by a helper that fails when evaluated, and with a bare first condition; chains of 5..12 branches with the first truthy condition at every position. (B2, exhaustive + random) ONE chain evaluated for a sequence of rows of truth assignments (conditions read r[j] or the field r.A of the row, bare or through the recording helper) as loop body / function body / parsed template executed per row: every ordered pair of assignments of 2 branches over 4 values as A, B, A, and random 1..4 branches x 2..6 rows over 10 values. (B3, exhaustive) a chain and the five test sites after a condition that called a template function whose body fails on an unknown identifier (7 values of a variable x 7 arguments bound to the parameter of the same name x 5 failing bodies x 6 uses x top level / loop / function): the render may fail; if it goes on, every site reads the variable as before the call and the chain's else-if tests the variable. (C, random) nested if/else-if/else chains whose conditions are trees of !, &&, || and parentheses (depth <= 3, only the parentheses the grammar needs) over recording calls, arithmetic and concatenation, inside loops, template functions called twice and block helpers, compared with the reference interpreter incl. the evaluation trace; a quarter of them as one parsed template executed with the data, with flipped data, and with the data again; a quarter of the leaves of a tree are operator expressions themselves (comparisons of n, n + 1, n * 2 or of a recording call with 0..2 under the six comparison operators, arithmetic values), and a ninth of the nodes are OUTPUT TAGS printing a tree whose root is ! / && / ||. (C2, exhaustive) an unknown identifier written DIRECTLY as an operand of && / || (never inside a comparison or a call: whether that is forgiven is not asserted, Result.Lenient) whose other operand X is one of 26 expressions that have operators, calls or indexing of their own (n > 0, n >= 1, n < 1, n <= 0, n == 1, n != 1, n + 1 > 1, n - 1 == 0, n * 2 != 2, 1 < n + n, n + 1, n - 1, n * 0, \"\" + s, !(n > 0), (n > 0), n > 0 && t, n < 1 || f, t && n > 0, a template function whose body is a comparison, a helper given a comparison, a helper result compared, arr[2 - n], [n > 0, n < 1][0]; t and f as reference points) x {&&, ||} x {X op unk, unk op X, X op unk op X, X op !unk} x 29 ways the whole is tested (bare if, !, !!, left / right operand of && / || next to true / false / a second unknown identifier, two levels deep on the left, on the right and under !, else-if condition at position 2, 3 and 4 and next to a comparison, after an else-if that tested the same expression, output tag of the expression / of its negation / of it || false, helper argument, let + test, returned from a template function, in a loop, in a block helper, in the then / else block of a chain that tested it) x n = 0, 1, 2, compared with the reference interpreter (the unknown identifier counts as nil: falsy). Non-trivial: every matrix cell, chain and row sequence is (distinct by cell / chain / template)."
 
 func setup(t *testing.T) *vk.Run {
 	r := vk.Start(t, "C07", rule,
@@ -1292,7 +1440,7 @@ func setup(t *testing.T) *vk.Run {
 		if err != nil {
 			return &vk.Fail{Kind: "decode", Msg: err.Error()}
 		}
-		return checkNest(r, prog, c.Thrice)
+		return checkNest(r, prog, c.Thrice, c.Cell)
 	})
 	return r
 }
@@ -1528,8 +1676,12 @@ func TestProp(t *testing.T) {
 		return checkRows(r, RowsCase{Rows: rows, HasElse: rapid.Bool().Draw(t, "else"), Mode: rapid.SampledFrom([]string{"loop", "fn", "exec"}).Draw(t, "mode"), Bare: rapid.Bool().Draw(t, "bare"), Field: field})
 	})
 
+	opCells := operandCells()
+	r.Subspace("operands: 26 operands that are operator expressions themselves (6 comparisons of n, 4 comparisons of arithmetic, 3 arithmetic values, a concatenation, !, parentheses, 3 logical expressions, a template function / a helper argument / a helper result compared / 2 index expressions with a comparison inside, 2 plain references) x {&&, ||} x {X op unk, unk op X, X op unk op X, X op !unk} x 29 ways the whole is tested (bare, !, !!, either operand of && / || next to true / false / a second unknown identifier, two levels deep on either side and under !, else-if conditions at positions 2-4 and next to a comparison, after a chain that tested it, output tag, helper argument, let + test, returned from a function, in a loop / block helper / nested chain) x n = 0, 1, 2", int64(len(opCells)), true)
+	r.Parallel(int64(len(opCells)), 0, func(i int64) { r.Check(checkNest(r, opCells[i], false, true)) })
+
 	r.Rapid("nested", r.Pick(4000, 60000), func(t *rapid.T) *vk.Fail {
 		g := &nestGen{t: t}
-		return checkNest(r, g.nodes(3), rapid.IntRange(0, 3).Draw(t, "thrice") == 0)
+		return checkNest(r, g.nodes(3), rapid.IntRange(0, 3).Draw(t, "thrice") == 0, false)
 	})
 }
